@@ -99,7 +99,10 @@ func TestFindingsGo(t *testing.T) {
 	if os.Getenv("C14_VERIFY_FINDINGS") == "" {
 		t.Skip("C14_VERIFY_FINDINGS not set")
 	}
-	dir, err := os.MkdirTemp("", "c14find")
+	if err := goSetup(); err != nil {
+		t.Fatal(err)
+	}
+	dir, err := os.MkdirTemp(goWork, "find")
 	if err != nil {
 		t.Fatal(err)
 	}
@@ -133,5 +136,21 @@ func TestFindingsGo(t *testing.T) {
 			div = "agrees"
 		}
 		fmt.Printf("%-28s Go=%-8s recorded=%-8s neo-go=%-40s %s%s\n", f.Key, goGot, f.GoWant, vm, div, mark)
+	}
+}
+
+// TestFindingsJSON (development aid, C14_FINDINGS_JSON=1) prints the entries proposed for known_findings.json.
+func TestFindingsJSON(t *testing.T) {
+	if os.Getenv("C14_FINDINGS_JSON") == "" {
+		t.Skip("C14_FINDINGS_JSON not set")
+	}
+	seen := map[string]bool{}
+	for _, f := range findings {
+		if seen[f.Key] {
+			continue
+		}
+		seen[f.Key] = true
+		b, _ := json.Marshal(map[string]string{"property": "C14", "key": f.Key, "status": "known", "what": "known: property=C14 " + f.What})
+		fmt.Printf("  %s,\n", b)
 	}
 }
